@@ -540,7 +540,7 @@ Definition step_ok (c : mctx) (prev : option av) (tvs : list tv) (i n : Z) (acc 
     (forall ms2 sfx2, mseq_from true c2 ms2 sfx2 -> mseq_from pend c (ms1 ++ ms2) (sepz ++ t ++ sfx2)) /\
     ms1 <> [] /\ pctx c2 prev2 /\ canon tvs = morig ms1 ++ canon tvs2 /\ Forall (goodt o zf zd) tvs2 /\
     length (flat tvs) = (inc + length (flat tvs2))%nat /\ (1 <= inc)%nat /\
-    (tvs2 = [] -> pend2 = false) /\
+    (tvs2 = [] -> pend2 = false) /\ (pend2 = false -> tvs2 = []) /\
     wrt2 - (if pend2 then 1 else 0) = wrt + len sepz + len t - (if pend then 1 else 0) /\
     print_vals_loop f o (flat tvs2) prev2 (i + Z.of_nat inc) n (acc ++ sepz ++ t) pend2 wrt2 cols2 awtl2 = Some res.
 
@@ -607,6 +607,9 @@ Proof.
   all: split; [first [intros _; reflexivity
                      |intros E2; exfalso; rewrite E2 in Hlen2; cbn [flat map concat length] in Hlen2;
                       apply Z.ltb_lt in Ein; cbn [length] in *; lia]|].
+  all: split; [first [intros E; discriminate E
+                     |intros _; apply length_zero_iff_nil; pose proof (flat_len tvs2); apply Z.ltb_ge in Ein;
+                      cbn [length] in *; lia]|].
   all: split; [lia|exact Hrun].
 Qed.
 (* an array printed as an element of the list or behind "Nx" *)
@@ -709,6 +712,9 @@ Proof.
     all: split; [first [intros _; reflexivity
                        |intros E2; exfalso; apply Z.ltb_lt in Ein; rewrite Hlenargs, E2 in Hn;
                         cbn [flat map concat length] in Hn; lia]|].
+    all: split; [first [intros E; discriminate E
+                       |intros _; apply length_zero_iff_nil; pose proof (flat_len tvs'); apply Z.ltb_ge in Ein;
+                        rewrite Hlenargs in Hn; lia]|].
     all: split; [subst sepz; destruct bb, pend; cbn in Ebp; try discriminate; unfold len, nl4, sp4; rewrite ?app_length; cbn [length]; lia|].
     all: replace (i + Z.of_nat (S (length es))) with (i + (Z.of_nat (length es) + 1)) by lia.
     all: rewrite <- (app_nil_r (arr_text T)) at 1; rewrite <- Eacc, app_nil_r; exact Hrun.
@@ -781,6 +787,218 @@ Proof.
     all: split; [first [intros _; reflexivity
                        |intros E2; exfalso; apply Z.ltb_lt in Ein; rewrite Hlenargs, E2 in Hn;
                         cbn [flat map concat length] in Hn; lia]|].
+    all: split; [first [intros E; discriminate E
+                       |intros _; apply length_zero_iff_nil; pose proof (flat_len rest2); apply Z.ltb_ge in Ein;
+                        rewrite Hlenargs in Hn; lia]|].
     all: split; [rewrite <- Et, !len_app; unfold sepz; destruct pend; change (len [32]) with 1; change (len []) with 0; lia|exact Hrun].
 Qed.
+(* the loop of rtosc_print_arg_vals emits a mixed sequence of the input *)
+Lemma print_loop_mseq : forall fuel tvs prev c i n acc pend wrt cols awtl text w,
+  Forall (goodt o zf zd) tvs -> Z.of_nat (length (flat tvs)) < 2 ^ 31 -> n = i + Z.of_nat (length (flat tvs)) ->
+  (tvs = [] -> pend = false) -> pctx c prev ->
+  print_vals_loop fuel o (flat tvs) prev i n acc pend wrt cols awtl = Some (text, w) ->
+  exists ms sfx, text = acc ++ sfx /\ w = wrt + len sfx - (if pend then 1 else 0) /\
+    mseq_from pend c ms sfx /\ morig ms = canon tvs /\ (tvs = [] -> ms = []).
+Proof.
+  induction fuel as [|fuel IH]; intros tvs prev c i n acc pend wrt cols awtl text w Hg Hlen Hn Hpe Hc Hrun;
+    [discriminate|].
+  destruct tvs as [|t tvs'].
+  - cbn [flat map concat print_vals_loop] in Hrun. cbn in Hn. replace (n <=? i) with true in Hrun by lia.
+    inversion Hrun; subst. exists [], []. rewrite app_nil_r, (Hpe eq_refl). cbn. repeat split; lia.
+  - assert (Hstep : step_ok c prev (t :: tvs') i n acc pend wrt fuel (text, w)).
+    { destruct t as [v|ty es].
+      - exact (step_val c fuel v tvs' prev i n acc pend wrt cols awtl _ (Forall_inv Hg) (Forall_inv_tail Hg) Hlen Hn Hc Hrun).
+      - destruct (Forall_inv Hg) as [Hges Hh].
+        exact (step_arr c fuel ty es tvs' prev i n acc pend wrt cols awtl _ Hges Hh (Forall_inv_tail Hg) Hlen Hn Hc Hrun). }
+    destruct Hstep as (ms1 & t1 & sepz & tvs2 & c2 & prev2 & inc & pend2 & wrt2 & cols2 & awtl2 & Hjoin & Hne & Hp2 & Hcan &
+                       Hg2 & Hlen2 & Hinc & Hpe2 & Hpe3 & Hw & Hrun2).
+    apply (IH tvs2 prev2 c2) in Hrun2; [|exact Hg2|lia|lia|exact Hpe2|exact Hp2].
+    destruct Hrun2 as (ms2 & sfx2 & -> & -> & Hseq2 & Hor2 & Hnil2).
+    exists (ms1 ++ ms2), (sepz ++ t1 ++ sfx2).
+    split; [now rewrite <- !app_assoc|]. split; [rewrite !len_app; lia|].
+    split; [|split].
+    + apply Hjoin. destruct pend2; [exact Hseq2|].
+      rewrite (Hnil2 (Hpe3 eq_refl)) in *. exact Hseq2.
+    + unfold morig in *. rewrite map_app, concat_app. fold (morig ms1). rewrite Hcan. f_equal. exact Hor2.
+    + discriminate.
+Qed.
 End PrintMixed.
+
+(* ------------------------------------------------------------------------- *)
+(* the round trip of lists of values and arrays                               *)
+Section FinalMixed.
+Variables dec2f dec2d : list Z -> Z.
+
+Lemma mseq_from_mseq : forall ms pend c sfx,
+  mseq_from dec2f dec2d pend c ms sfx -> ms <> [] ->
+  exists sepz T, sfx = sepz ++ T /\ mseq dec2f dec2d c ms T /\ (if pend then sepw sepz else sepz = []).
+Proof.
+  induction ms as [|m ms IH]; intros pend c sfx H Hne; [congruence|].
+  cbn [mseq_from] in H. destruct H as (sepz & sfx' & -> & Hok & Hs & Hl).
+  destruct ms as [|m' ms'].
+  - cbn in Hl. subst sfx'. exists sepz, (m_text m). rewrite app_nil_r.
+    split; [reflexivity|]. split; [now constructor|assumption].
+  - destruct (IH true _ sfx' Hl ltac:(discriminate)) as (sepz' & T' & -> & HL & Hs').
+    exists sepz, (m_text m ++ sepz' ++ T'). split; [reflexivity|]. split; [|assumption].
+    now constructor.
+Qed.
+
+Theorem roundtrip_mixed o zf zd tvs text w :
+  zchoice zf zd -> Forall (goodt o zf zd) tvs -> Z.of_nat (length (flat tvs)) < 2 ^ 31 ->
+  print_arg_vals o (flat tvs) 0 = Some (text, w) ->
+  exists slots,
+    w = len text /\
+    count_printed_arg_vals dec2f dec2d text = Ok (true, Z.of_nat (length slots)) /\
+    scan_arg_vals dec2f dec2d text (Z.of_nat (length slots)) = Ok (slots, []) /\
+    expand_deep slots = Some (flat (canon tvs)).
+Proof.
+  intros Hz Hg Hlen Hp. unfold print_arg_vals in Hp.
+  apply (print_loop_mseq dec2f dec2d o zf zd Hz _ tvs None (CItem None)) in Hp;
+    try assumption; try lia; try reflexivity.
+  destruct Hp as (ms & sfx & -> & -> & Hseq & Horig & Hnil). cbn [app].
+  destruct ms as [|m ms].
+  - cbn in Hseq. subst sfx. exists []. unfold morig in Horig. cbn [map concat] in Horig. rewrite <- Horig.
+    repeat split; reflexivity.
+  - destruct (mseq_from_mseq _ _ _ _ Hseq ltac:(discriminate)) as (sepz & T & -> & HL & ->). cbn [app].
+    exists (mslots (m :: ms)). split; [lia|].
+    destruct (mseq_reads dec2f dec2d _ _ HL) as [Hc Hs]. split; [exact Hc|]. split; [exact Hs|].
+    rewrite <- Horig. exact (expand_deep_mseq dec2f dec2d _ _ _ HL).
+Qed.
+
+Theorem message_roundtrip_mixed o zf zd addr tvs text w :
+  zchoice zf zd -> good_addr addr -> Forall (goodt o zf zd) tvs -> Z.of_nat (length (flat tvs)) < 2 ^ 31 ->
+  print_message o addr (flat tvs) 0 = Some (text, w) ->
+  exists slots,
+    w = len text /\
+    count_printed_arg_vals_of_msg dec2f dec2d text = Ok (true, Z.of_nat (length slots)) /\
+    scan_message dec2f dec2d text (Z.of_nat (length slots)) = Ok (addr, slots, []) /\
+    expand_deep slots = Some (flat (canon tvs)).
+Proof.
+  intros Hz [[ar Ea] Hns] Hg Hlen Hp. unfold print_message in Hp.
+  destruct (print_vals_loop (S (length (flat tvs))) o (flat tvs) None 0 (Z.of_nat (length (flat tvs))) addr true 0
+              (0 + (len addr + 1)) (if 0 + (len addr + 1) =? 0 then 0 else 1)) as [[t w']|] eqn:El;
+    [|discriminate].
+  inversion Hp; subst text w; clear Hp.
+  assert (Hsk : forall tail f, skip_comments_ws f (addr ++ tail) = addr ++ tail)
+    by (intros; rewrite Ea; cbn [app]; apply skip_comments_ws_no; lia).
+  assert (Hhd : forall tail, hd0 (addr ++ tail) = 47) by (intros; rewrite Ea; reflexivity).
+  assert (Hnw : forall tail, skip_ws (addr ++ tail) = addr ++ tail)
+    by (intros; apply skip_ws_nonspace; rewrite Hhd; reflexivity).
+  destruct tvs as [|tv0 tvs'].
+  - cbn in El. inversion El; subst t w'. cbn [flat map concat length Z.of_nat Z.eqb].
+    assert (Hd := dropwhile_nonspace addr [32] Hns (or_intror eq_refl)). destruct Hd as [Hd Ht].
+    exists []. split; [rewrite len_app; cbn; unfold len; cbn; lia|].
+    unfold count_printed_arg_vals_of_msg, scan_message.
+    rewrite !Hnw, !Hsk, !Hhd. cbn [Z.eqb Pos.eqb negb]. rewrite Hd, Ht.
+    repeat split; reflexivity.
+  - assert (Hpos : (1 <= length (flat (tv0 :: tvs')))%nat)
+      by (pose proof (flat_len (tv0 :: tvs')); cbn [length] in *; lia).
+    apply (print_loop_mseq dec2f dec2d o zf zd Hz _ (tv0 :: tvs') None (CItem None)) in El;
+      try assumption; try lia; try discriminate; try reflexivity.
+    destruct El as (ms & sfx & -> & -> & Hseq & Horig & _).
+    assert (Hne : ms <> []) by (intros ->; unfold morig, canon in Horig; cbn in Horig; discriminate).
+    destruct (mseq_from_mseq _ _ _ _ Hseq Hne) as (sepz & T & -> & HL & Hsep).
+    assert (Hz0 : (Z.of_nat (length (flat (tv0 :: tvs'))) =? 0) = false) by (apply Z.eqb_neq; lia). rewrite !Hz0.
+    destruct ms as [|m ms']; [congruence|].
+    destruct (mseq_first dec2f dec2d _ _ _ _ HL) as (c & r & -> & Hc).
+    assert (Hsp : sepz ++ c :: r = [] \/ isspace (hd0 (sepz ++ c :: r)) = true).
+    { right. destruct Hsep as [Hne' Hall]. destruct sepz as [|x s]; [congruence|]. now inversion Hall. }
+    destruct (dropwhile_nonspace addr (sepz ++ c :: r) Hns Hsp) as [Hd Ht].
+    assert (Hws : skip_ws (sepz ++ c :: r) = c :: r).
+    { apply skip_ws_sep; [apply Hsep|]. rewrite hd0_cons. apply Hc. }
+    exists (mslots (m :: ms')). split; [rewrite !len_app in *; lia|].
+    destruct (mseq_reads dec2f dec2d _ _ HL) as [Hcnt Hscan].
+    unfold count_printed_arg_vals_of_msg, scan_message.
+    rewrite !Hnw, !Hsk, !Hhd. cbn [Z.eqb Pos.eqb negb]. rewrite Hd, Ht, Hws.
+    split; [|split].
+    + unfold count_printed_arg_vals in *. rewrite Hws.
+      destruct Hc as (H0 & H47 & H37 & Hsp' & H46 & H40).
+      rewrite skip_comments_ws_no by assumption.
+      rewrite skip_ws_nonspace in Hcnt by now rewrite hd0_cons.
+      rewrite skip_comments_ws_no in Hcnt by assumption.
+      rewrite (count_loop_mseq dec2f dec2d _ _ _ HL); [reflexivity|reflexivity|].
+      rewrite app_length. cbn [length]. lia.
+    + now rewrite Hscan.
+    + rewrite <- Horig. exact (expand_deep_mseq dec2f dec2d _ _ _ HL).
+Qed.
+End FinalMixed.
+
+(* ------------------------------------------------------------------------- *)
+(* with the condition on the zeroes at list level (nozmix over all values, also
+   those inside arrays), as the classifier of the check states it              *)
+Definition goodtv (o : popts) (t : tv) : Prop :=
+  match t with
+  | TS v => goodv o v
+  | TA _ es => Forall (goodv o) es /\ homog es
+  end.
+Definition scalars (tvs : list tv) : list av :=
+  concat (map (fun t => match t with TS v => [v] | TA _ es => es end) tvs).
+
+Lemma goodtv_scalars o tvs : Forall (goodtv o) tvs -> Forall (goodv o) (scalars tvs).
+Proof.
+  induction 1 as [|t tvs Ht _ IH]; [constructor|]. unfold scalars in *. cbn [map concat].
+  apply Forall_app. split; [|exact IH]. destruct t as [v|ty es]; cbn [goodtv] in Ht; [now constructor|apply Ht].
+Qed.
+
+Lemma goodt_of o zf zd tvs : Forall (goodtv o) tvs -> Forall (goodc o zf zd) (scalars tvs) -> Forall (goodt o zf zd) tvs.
+Proof.
+  induction 1 as [|t tvs Ht _ IH]; intros Hc; [constructor|]. unfold scalars in *. cbn [map concat] in Hc.
+  apply Forall_app in Hc as [H1 H2]. constructor; [|now apply IH].
+  destruct t as [v|ty es]; cbn [goodtv goodt] in *; [now inversion H1|split; [exact H1|apply Ht]].
+Qed.
+
+Theorem roundtrip_mixed_nz (dec2f dec2d : list Z -> Z) o tvs text w :
+  Forall (goodtv o) tvs -> nozmix (scalars tvs) -> Z.of_nat (length (flat tvs)) < 2 ^ 31 ->
+  print_arg_vals o (flat tvs) 0 = Some (text, w) ->
+  exists slots,
+    w = len text /\
+    count_printed_arg_vals dec2f dec2d text = Ok (true, Z.of_nat (length slots)) /\
+    scan_arg_vals dec2f dec2d text (Z.of_nat (length slots)) = Ok (slots, []) /\
+    expand_deep slots = Some (flat (canon tvs)).
+Proof.
+  intros Hg Hnz. destruct (zero_choice o (scalars tvs) (goodtv_scalars o tvs Hg) Hnz) as (zf & zd & Hz & Hg').
+  exact (roundtrip_mixed dec2f dec2d o zf zd tvs text w Hz (goodt_of o zf zd tvs Hg Hg')).
+Qed.
+
+Theorem message_roundtrip_mixed_nz (dec2f dec2d : list Z -> Z) o addr tvs text w :
+  good_addr addr -> Forall (goodtv o) tvs -> nozmix (scalars tvs) -> Z.of_nat (length (flat tvs)) < 2 ^ 31 ->
+  print_message o addr (flat tvs) 0 = Some (text, w) ->
+  exists slots,
+    w = len text /\
+    count_printed_arg_vals_of_msg dec2f dec2d text = Ok (true, Z.of_nat (length slots)) /\
+    scan_message dec2f dec2d text (Z.of_nat (length slots)) = Ok (addr, slots, []) /\
+    expand_deep slots = Some (flat (canon tvs)).
+Proof.
+  intros Ha Hg Hnz. destruct (zero_choice o (scalars tvs) (goodtv_scalars o tvs Hg) Hnz) as (zf & zd & Hz & Hg').
+  exact (message_roundtrip_mixed dec2f dec2d o zf zd addr tvs text w Hz Ha (goodt_of o zf zd tvs Hg Hg')).
+Qed.
+
+(* non-vacuity: [1 2 3 4 5 6 9] 9 10 11 12 13 true [] [] [] [] [] is printed
+   "[1 ... 6 9] 9 ... 13 true 5x[]" - a range tail directly after an array that ends
+   in the tail's first value, and a repetition of arrays *)
+Definition ex_tvs : list tv :=
+  [TA 105 (map VI [1; 2; 3; 4; 5; 6; 9])] ++ map TS (map VI [9; 10; 11; 12; 13]) ++ [TS VT] ++ repeat (TA 32 []) 5.
+
+Lemma roundtrip_mixed_example : forall o,
+  Forall (goodtv o) ex_tvs /\ nozmix (scalars ex_tvs) /\
+  print_arg_vals {| lossless := true; prec := 2; linelength := 80; compress := true |} (flat ex_tvs) 0
+  = Some ([91; 49; 32; 46; 46; 46; 32; 54; 32; 57; 93; 32; 57; 32; 46; 46; 46; 32; 49; 51; 32;
+           116; 114; 117; 101; 32; 53; 120; 91; 93], 30).
+Proof.
+  intros o. split; [|split; [|vm_compute; reflexivity]].
+  - assert (Hi : forall z, - 2 ^ 31 <= z < 2 ^ 31 -> goodv o (VI z))
+      by (intros z Hz; left; cbn; unfold small_k, good_k, inr; lia).
+    unfold ex_tvs. repeat (apply Forall_app; split).
+    + constructor; [|constructor]. cbn [goodtv]. split.
+      * apply Forall_forall. intros x Hx. cbn in Hx.
+        repeat (destruct Hx as [<-|Hx]; [apply Hi; lia|]). contradiction.
+      * intros a b Ha Hb. cbn in Ha, Hb.
+        repeat (destruct Ha as [<-|Ha]; [repeat (destruct Hb as [<-|Hb]; [reflexivity|]); contradiction|]). contradiction.
+    + apply Forall_forall. intros x Hx. cbn in Hx.
+      repeat (destruct Hx as [<-|Hx]; [cbn [goodtv]; apply Hi; lia|]). contradiction.
+    + constructor; [|constructor]. cbn [goodtv]. left. exact I.
+    + apply Forall_forall. intros x Hx. apply repeat_spec in Hx. subst x. cbn [goodtv].
+      split; [constructor|intros a b Ha; contradiction].
+  - unfold nozmix. split; left; intros H; cbn in H;
+      repeat (destruct H as [H|H]; [discriminate|]); contradiction.
+Qed.
